@@ -303,10 +303,66 @@ def check_par(prop, tier, seed):
     return res
 
 
+# --------------------------------------------------------------------------- C11 (sinks)
+def check_sink(prop, tier, seed):
+    import re
+    res = Result()
+    out = os.path.join(vlib.WORK, f"{prop}-{tier}")
+    import shutil
+    shutil.rmtree(out, ignore_errors=True)
+    args = ["sink", "--tier", tier, "--seed", seed, "--out", out, "--shards", vlib.JVMS * (2 if tier == "thorough" else 1)]
+    summ = vlib.run_fv(args)
+    verdicts, states, trans, _ = vlib.run_trace_shards("TraceSink.tla", "TraceSink.cfg", summ["files"], tagp=prop, timeout=3000)
+    if len(verdicts) != summ["sequences"]:
+        raise ToolError(f"{summ['sequences']} sequences driven but {len(verdicts)} verdicts")
+    ok = 0
+    for sid, (v, msgs) in sorted(verdicts.items()):
+        if v == "pass":
+            ok += 1
+            continue
+        first = msgs[0]
+        key = f"{prop} sink={sid.split('-')[0]} " + re.sub(r"at offset \d+", "at offset #", first)
+        res.failures.append(dict(key=key, what=f"sequence {sid}: {first}", name=sid,
+                                 replay=dict(property=prop, kind="sink", seed=seed, tier=tier, sequence=sid, what=msgs),
+                                 trace_lines=extract_seq(summ["files"], sid)))
+    # one failure per distinct key is enough in the report
+    seen, uniq = set(), []
+    for f in res.failures:
+        if f["key"] not in seen:
+            seen.add(f["key"])
+            uniq.append(f)
+    res.failures = uniq
+    res.coverage = dict(states=states, transitions=trans, traces_validated_against_impl=ok,
+                        evaluations=summ["sequences"], operations=summ["ops"], distinct_nontrivial=summ["classes"],
+                        user_sink_components=summ["components"], panics=summ["panics"],
+                        rule="systematic: every start offset 0..63 x operand type u8/u16/u32/u64 x n in 0..=width x msbs/lsbs (+twoc, write, zero runs, "
+                             "align, aligned bytes) followed by two further operations, on MemSink<u8> and MemSink<u64>; plus seeded random sequences; "
+                             "plus a user-defined sink (required methods only) receiving streams/frames/headers/subframes. distinct = distinct "
+                             "(sink kind, operation, operand bytes, n) classes counted by the harness",
+                        samples=summ["samples"], exhaustive=False)
+    res.assumptions = ["BitSink.tla's Apply/Export is the intended meaning of the trait documentation",
+                       "values are random/representative, offsets and widths are exhaustive"]
+    return res
+
+
+def extract_seq(files, sid):
+    for f in files:
+        keep, on = [], False
+        for line in open(f):
+            if '"ev":"reset"' in line:
+                on = f'"id":"{sid}"' in line
+            if on:
+                keep.append(line)
+                if '"ev":"fin"' in line:
+                    return keep
+    return []
+
+
 # --------------------------------------------------------------------------- registry
 CHECKS = {}
 for _p in STREAM:
     CHECKS[_p] = check_stream
+CHECKS["C11"] = check_sink
 CHECKS["C05"] = check_par
 CHECKS["C06"] = check_par
 
@@ -318,6 +374,15 @@ def replay(prop, path):
         # re-encode the same case with the current working tree and validate it again
         r = check_stream(prop, payload.get("tier", "quick"), payload["seed"], only=payload["case"],
                          outdir=os.path.join(vlib.WORK, f"{prop}-replay"))
+        return r
+    if kind == "sink":
+        r = Result()
+        trace = payload["trace"]
+        verdicts, _, _, _ = vlib.run_trace_shards("TraceSink.tla", "TraceSink.cfg", [trace], tagp="replay")
+        print("  note: this replays the recorded trace; re-run the check to re-drive the sinks")
+        for sid, (v, msgs) in verdicts.items():
+            if v != "pass":
+                r.failures.append(dict(key=f"{prop} " + msgs[0], what=msgs[0], name=sid, replay=payload))
         return r
     if kind in ("sched", "free"):
         out = vlib.run_fv(["sched-one", "--file", path], timeout=600)
